@@ -121,6 +121,10 @@ class CellEval:
                 # clip(x, lo, hi) = min(max(x, lo), hi)
                 m = x if self.compare(">=", x, lo) else lo
                 return m if self.compare("<=", m, hi) else hi
+        if isinstance(node, ast.Call) and isinstance(node.func, ast.Name) and node.func.id in ("int", "float") and len(node.args) == 1 and not node.keywords \
+                and self.sym_of(node.args[0]) is not None:
+            # int(R[i]) of an element that already is an integer level index / a float of a symbol: the same value
+            return self.eval(node.args[0])
         if isinstance(node, ast.Call):
             fn = node.func
             name = fn.id if isinstance(fn, ast.Name) else (fn.attr if isinstance(fn, ast.Attribute) else None)
